@@ -28,7 +28,7 @@ def build(profile='release'):
         lk = os.path.join(BUILD, 'Cargo.lock')
         if not os.path.exists(lk):
             import shutil; shutil.copy(os.path.join(NATDIFF, 'Cargo.lock'), lk)
-        env = dict(os.environ); env['CARGO_NET_OFFLINE'] = 'true'; env['CARGO_TARGET_DIR'] = TARGET; env.pop('RUSTFLAGS', None); env['VERIF_DIR'] = dump.VERIF
+        env = dict(os.environ); env['CARGO_NET_OFFLINE'] = 'true'; env['CARGO_TARGET_DIR'] = TARGET; env['RUSTFLAGS'] = '--cfg slotted_egraphs_verif'; env['VERIF_DIR'] = dump.VERIF
         cmd = ['cargo', 'build', '--offline', '--quiet'] + (['--release'] if profile == 'release' else [])
         p = subprocess.run(cmd, cwd=BUILD, env=env, stdout=subprocess.PIPE, stderr=subprocess.PIPE)
         if p.returncode != 0:
